@@ -123,7 +123,11 @@ func (r *agentRun) do(c ref.AgentCall) (ret string, events []ref.AgentEvent, tok
 	case "stop":
 		err = r.a.Stop(idOf(c.ID))
 	case "stoperr":
-		err = r.a.StopWithError(idOf(c.ID), customErrs[c.E])
+		if c.E < 0 {
+			err = r.a.StopWithError(idOf(c.ID), nil) // a nil error is passed through as given
+		} else {
+			err = r.a.StopWithError(idOf(c.ID), customErrs[c.E])
+		}
 	case "process":
 		r.msgToken++
 		token = r.msgToken
@@ -173,7 +177,8 @@ func alphabet(ids int, times []int64) []ref.AgentCall {
 		for _, t := range times {
 			out = append(out, ref.AgentCall{Op: "start", ID: id, T: t})
 		}
-		out = append(out, ref.AgentCall{Op: "stop", ID: id}, ref.AgentCall{Op: "stoperr", ID: id, E: id % 3}, ref.AgentCall{Op: "process", ID: id})
+		e := id%3 - 1 // -1 = StopWithError(id, nil)
+		out = append(out, ref.AgentCall{Op: "stop", ID: id}, ref.AgentCall{Op: "stoperr", ID: id, E: e}, ref.AgentCall{Op: "process", ID: id})
 	}
 	for _, t := range times {
 		out = append(out, ref.AgentCall{Op: "collect", T: t})
@@ -325,7 +330,7 @@ func TestC13_Rapid(t *testing.T) {
 		case "stop", "process":
 			c.ID = rapid.IntRange(0, 11).Draw(rt, "id")
 		case "stoperr":
-			c.ID, c.E = rapid.IntRange(0, 11).Draw(rt, "id"), rapid.IntRange(0, 2).Draw(rt, "e")
+			c.ID, c.E = rapid.IntRange(0, 11).Draw(rt, "id"), rapid.IntRange(-1, 2).Draw(rt, "e")
 		case "collect":
 			c.T = int64(rapid.IntRange(0, 51).Draw(rt, "time"))
 		case "sethandler":
